@@ -277,8 +277,20 @@ class MiniInterp:
         fi = self.prj.funcs.get(fi.qual, fi)      # the function as written (not the view with helpers inlined): every call is followed and seen by the hook
         memo_key = None
         if any((attr_chain(d.func if isinstance(d, ast.Call) else d) or "").split(".")[-1] in ("lru_cache", "cache") for d in fi.node.decorator_list):
+            typed = any(isinstance(d, ast.Call) and any(k.arg == "typed" and isinstance(k.value, ast.Constant) and k.value.value for k in d.keywords)
+                        for d in fi.node.decorator_list)
+
             def kk(v):
-                return v.uid if isinstance(v, Sym) else repr(v)
+                # the memo looks arguments up as a dictionary does: by hash and ==, so 1, 1.0 and True are one key (unless typed=True)
+                if isinstance(v, Sym):
+                    return ("sym", self.key(v).uid if v.cls is not None and v.cls.find_method("__eq__") is not None else v.uid)
+                if v is None or isinstance(v, (bool, int, float, str, bytes)):
+                    return (type(v).__name__, v) if typed else v
+                if type(v) is tuple:
+                    return tuple(kk(x) for x in v)
+                if isinstance(v, (list, dict, set, ISet)) and not isinstance(v, frozenset):
+                    raise PyRaise("TypeError")          # unhashable argument of a memoised function
+                return ("repr", repr(v))
             memo_key = (fi.qual, tuple(kk(a) for a in args), tuple(sorted((k, kk(v)) for k, v in kwargs.items())), kk(self_obj) if self_obj is not None else None)
             store = self.__dict__.setdefault("_memo", {})
             if memo_key in store:
